@@ -12,6 +12,9 @@ def run(chk, replay=None, prop="C03"):
     n = 10 if quick else 70
     variants = {"reset_step": dict(drive="reset_step")}
     if not quick: variants["run"] = dict(drive="run")
+    if prop == "C04":
+        # expected delays re-configured between two episodes of the same graph object: phases (hence the schedule) of the second episode follow
+        variants["set_delay_between"] = dict(drive="reset_step", episodes=2, between="auto")
     graphs = al.async_suite(chk, n, variants, max_nodes=4 if quick else 5, model_seeds=(1, 2))
     evaluate(chk, graphs, variants, prop)
     if not quick and prop == "C03":
@@ -28,11 +31,14 @@ def evaluate(chk, graphs, variants, prop):
         if G["skipped"]: chk.feat("skipped:" + G["skipped"].split(":")[0]); continue
         for vn, r in G["runs"].items():
             key = (repr(cfg), vn)
+            if "error" in r and al.unsupported_hang(chk, cfg, r): continue
             if "error" in r:
                 chk.case(key, ["impl-error"], None)
                 chk.violation(f"async-run-fails:{r['error'].split(':')[0].split(' ')[0]}", f"threaded run failed ({vn}): {r['error'][:300]}", dict(cfg=cfg, variant=vn))
                 continue
             ep = al.canon_neg(r["episodes"][0])
+            if vn == "set_delay_between":
+                second_episode(chk, G, r); continue
             feats = al.features(cfg)
             ties = tie_features(cfg, ep)
             chk.case(key, feats + ties, dict(cfg=cfg) if len(chk.samples) < 2 else None)
@@ -52,6 +58,22 @@ def evaluate(chk, graphs, variants, prop):
                     chk.broke("correspondence:M1-vs-AsyncGraph", f"{d} | cfg={cfg}"); break
             # the model itself must satisfy the clauses (self-test of checker and model; a failure here is ours)
     return
+
+
+def second_episode(chk, G, r):
+    """episode 1 after set_delay(delay=...) between the episodes: judged with the phases in force for that episode (reported by the worker
+    after the change) by the C04 reference recurrence and against the model run with those phases"""
+    cfg = G["cfg"]
+    if len(r["episodes"]) < 2 or "error" in r["episodes"][1]["record"]: chk.feat("second-episode-unavailable"); return
+    ep = al.canon_neg(r["episodes"][1]); nph, cph = ep["node_phase"], ep["conn_phase"]
+    chk.case((repr(cfg), "set_delay_between", repr(G.get("between"))), al.features(cfg) + ["set_delay-between-episodes"], None); chk.traces_impl += 1
+    cfg2 = G["cfg_after"]
+    case = dict(cfg=cfg, between=G.get("between"), node_phase_after=nph)
+    vs = ac.check_c04(cfg2, nph, cph, ep["record"])
+    for sig, det in vs[:2]: chk.violation(sig + "(after-set_delay)", f"second episode after set_delay(delay=...): {det}", case)
+    m = al.run_model([(cfg2, nph, cph, al.limits_of(cfg2, ep), 5)])[0]
+    d = al.compare_episode(cfg2, ep, m)
+    if d and not vs: chk.broke("correspondence:M1-vs-AsyncGraph(after-set_delay)", d)
 
 
 def tie_features(cfg, ep):
